@@ -1,5 +1,6 @@
 """The Lean model driver: one JSON object per line in, one per line out."""
 import json
+import select
 import subprocess
 from pathlib import Path
 
@@ -20,6 +21,10 @@ class ModelDriver:
         assert '\n' not in line
         self.proc.stdin.write(line + '\n')
         self.proc.stdin.flush()
+        ready, _, _ = select.select([self.proc.stdout], [], [], 300)
+        if not ready:
+            self.proc.kill()
+            raise RuntimeError(f'model driver timed out (300 s) on {line[:300]}')
         out = self.proc.stdout.readline()
         if not out:
             raise RuntimeError(f'model driver died on {line[:300]}')
